@@ -134,6 +134,8 @@ mod master_playlist;
 mod media_playlist;
 mod media_segment;
 mod traits;
+#[cfg(hls_m3u8_verif)]
+pub mod verif_hooks;
 
 pub use error::Result;
 pub use stable_vec;
